@@ -316,6 +316,81 @@ def check_count_data_dict(rep, prog):
            what='the counts accumulated in the loop are returned')
 
 
+_CD_SUMMARY = {}
+
+
+def count_dict_summary(prog):
+    """abstract execution of Spectrum._from_count_dict for 1..3 populations, polarised or not; per path: the names the key is
+    unpacked into, whether the configuration is skipped, whether the result is folded, and for every population the arguments of
+    its _cached_projection call and the index that aligns the weights with the axes of the spectrum"""
+    if _CD_SUMMARY:
+        return _CD_SUMMARY
+    from sa import miniexec as mx
+    from sa import alpha
+    m = prog.mod(SM)
+    fn = prog.func(SM, 'Spectrum._from_count_dict')
+    known = alpha.load_table().get('__params__', {}).get(m.rel)
+    known = set(known) if known is not None else None
+    for P in (1, 2, 3):
+        for polarized in (True, False):
+            it = mx.Interp(prog, m, known_functions=known, symbolic_loops=True)
+            try:
+                paths = it.run(fn, {'count_dict': mx.Sym('count_dict'), 'projections': mx.Sym('projections', length=P), 'polarized': polarized,
+                                    'pop_ids': mx.Sym('pop_ids'), 'mask_corners': mx.Sym('mask_corners')})
+            except mx.Undecidable as e:
+                raise AnalysisError('_from_count_dict is not recognised: %s' % e)
+            out = []
+            for outcome, events, dec in paths:
+                rec = {'error': None, 'skipped': False, 'folded': False, 'factors': {}, 'extra': '', 'names': [], 'count': None}
+                out.append(rec)
+                if outcome[0] != 'return':
+                    rec['error'] = 'raises %s' % outcome[1]
+                    continue
+                lps = [e for e in events if e[0] == 'loop' and 'count_dict' in e[1]]
+                if len(lps) != 1 or lps[0][1] != 'count_dict.items()':
+                    rec['error'] = 'loop over the configurations not found'
+                    continue
+                mt = re.fullmatch(r'\(\((\w+), (\w+), (\w+)\), (\w+)\)', lps[0][2])
+                if not mt:
+                    rec['error'] = 'loop target %s' % lps[0][2]
+                    continue
+                rec['names'], rec['count'] = list(mt.groups()[:3]), mt.group(4)
+                v = outcome[1]
+                base = mx.method_call(v, 'fold')
+                if base is not None:
+                    rec['folded'], v = True, base
+                terms = mx.factors(v, '+')
+                if len(terms) == 1:
+                    rec['skipped'] = True           # nothing added on this path (configuration skipped)
+                    continue
+                if len(terms) != 2:
+                    rec['error'] = '%d terms added per configuration' % (len(terms) - 1)
+                    continue
+                fac = mx.factors(terms[1], '*')
+                cnt = [f for f in fac if isinstance(f, mx.Sym) and f.text == rec['count']]
+                rest = [f for f in fac if not (isinstance(f, mx.Sym) and f.text == rec['count'])]
+                if len(cnt) != 1:
+                    rec['extra'] = 'the SNP count enters %d times' % len(cnt)
+                for f in rest:
+                    st = f.struct if isinstance(f, mx.Sym) else None
+                    if not (st and st[0] == 'index' and mx.call_of(st[1], '_cached_projection') is not None):
+                        rec['extra'] = 'unexpected factor %s' % mx.show(f)[:60]
+                        continue
+                    cargs, ckw = mx.call_of(st[1], '_cached_projection')
+                    key = st[2] if isinstance(st[2], tuple) else (st[2],)
+                    free = [k for k, x in enumerate(key) if mx.is_full_slice(x)]
+                    axis_ok = len(key) == P and len(free) == 1 and all(mx.is_newaxis(x) for k, x in enumerate(key) if k != free[0])
+                    mi = re.fullmatch(r'projections\[(\d+)\]', mx.show(cargs[0])) if cargs else None
+                    pop = int(mi.group(1)) if mi else (free[0] if free else -1)
+                    if pop in rec['factors']:
+                        rec['extra'] = 'population %d enters twice' % pop
+                    rec['factors'][pop] = {'args': [mx.show(a) for a in cargs] + ['%s=%s' % kv for kv in ckw.items()], 'axis_ok': axis_ok and free[0] == pop, 'key': mx.show(key)}
+                if len(rest) != P and not rec['extra']:
+                    rec['extra'] = '%d weight factors for %d populations' % (len(rest), P)
+            _CD_SUMMARY[(P, polarized)] = out
+    return _CD_SUMMARY
+
+
 # ---------------------------------------------------------------------------------------------------------------------
 def check_from_count_dict(rep, prog):
     m = prog.mod(SM)
@@ -337,95 +412,48 @@ def check_from_count_dict(rep, prog):
     oks = isinstance(first, ast.If) and ast.unparse(first.test) == 'polarized and (not %s)' % pol and len(first.body) == 1 and isinstance(first.body[0], ast.Continue) and not first.orelse
     rep.ob('R-DOM', '_from_count_dict unpolarised SNPs', oks, '`if %s`' % ast.unparse(first.test) if isinstance(first, ast.If) else 'no guard', m.rel, first.lineno,
            what='unpolarised SNPs are skipped exactly when a polarised spectrum is requested')
-    # projection per population
+    # what is added to the spectrum per configuration, for 1..3 populations: abstract execution (one symbolic iteration of the
+    # loop over configurations); the way the per-population weights are collected and multiplied does not matter
     cp = prog.func('dadi.Numerics', '_cached_projection')
     cpp = positional_params(cp)
-    inner = [n for n in lp.body if isinstance(n, ast.For) and any(isinstance(c, ast.Call) and dotted(c.func) == '_cached_projection' for c in ast.walk(n))]
-    okp = False
-    det = ''
-    if len(inner) == 1:
-        il = inner[0]
-        it = None
-        for st in lp.body:
-            if isinstance(st, ast.Assign) and ast.unparse(st.targets[0]) == getattr(il.iter.args[0] if isinstance(il.iter, ast.Call) and il.iter.args else None, 'id', None):
-                it = st.value
-        zipped = [ast.unparse(a) for a in it.args] if isinstance(it, ast.Call) and dotted(it.func) == 'zip' else []
-        mt2 = re.fullmatch(r'\((\w+), \((\w+), (\w+), (\w+)\)\)', ast.unparse(il.target))
-        calls = [c for c in ast.walk(il) if isinstance(c, ast.Call) and dotted(c.func) == '_cached_projection']
-        if mt2 and len(calls) == 1 and zipped:
-            idx, a, b, c = mt2.groups()
-            role = dict(zip((a, b, c), zipped))
-            args = [role.get(ast.unparse(x)) for x in calls[0].args]
-            # _cached_projection(proj_to, proj_from, hits)
-            want = ['projections', called, derived]
-            okp = args == want and cpp[:3] == ['proj_to', 'proj_from', 'hits'] and dotted(il.iter.func) == 'enumerate'
-            sub = calls[0]._parent if hasattr(calls[0], '_parent') else None
-            oksl = isinstance(sub, ast.Subscript) and ast.unparse(sub.slice) == 'slices[%s]' % idx
-            apps = [s for s in il.body if isinstance(s, ast.Expr) and ast.unparse(s.value).startswith('pop_contribs.append(')]
-            okp = okp and oksl and len(apps) == 1
-            det = '_cached_projection(%s) with (%s) = zip(%s); broadcast slices[%s]' % (', '.join(ast.unparse(x) for x in calls[0].args), ', '.join((a, b, c)), ', '.join(zipped), idx)
-    rep.ob('R-ARGS', '_from_count_dict projection arguments', okp, det or 'per-population loop not recognised', m.rel, lp.lineno,
-           what='_cached_projection(to = requested size, from = called chromosomes, hits = derived calls) for each population on its own axis')
-    # slices: axis ii free, all others new axes
-    pre = '\n'.join(ast.unparse(s) for s in fn.body[:fn.body.index(lp)])
-    oksl = 'slices = [[numpy.newaxis] * len(projections) for ii in range(len(projections))]' in pre and 'slices[ii][ii] = slice(None, None, None)' in pre and \
-        'slices = [tuple(_) for _ in slices]' in pre
-    rep.ob('R-IDX', '_from_count_dict broadcast slices', oksl, 'slices[i] selects axis i and inserts new axes elsewhere', m.rel, fn.lineno, what='population i varies along axis i of the product')
-    # accumulation: evaluate the statements after the per-population loop symbolically (PROD = product of all contributions)
-    okm = False
-    det = 'product / accumulation not recognised'
-    try:
-        rest = lp.body[lp.body.index(inner[0]) + 1:] if len(inner) == 1 else []
-        env = {}
-        added = []
-        for st in rest:
-            tt = ast.unparse(st)
-            if tt == 'fs_proj = pop_contribs[0]':
-                env['fs_proj'] = Rat.atom('C0')
-            elif isinstance(st, ast.For) and ast.unparse(st.iter) == 'pop_contribs[1:]' and isinstance(st.target, ast.Name) and len(st.body) == 1:
-                c = st.target.id
-                b = st.body[0]
-                if isinstance(b, ast.Assign):
-                    v = Translator({'fs_proj': Rat.atom('P'), c: Rat.atom('c')}).tr(b.value)
-                    tgt_ = ast.unparse(b.targets[0])
-                elif isinstance(b, ast.AugAssign) and isinstance(b.op, ast.Mult):
-                    v = Rat.atom('P') * Translator({c: Rat.atom('c')}).tr(b.value)
-                    tgt_ = ast.unparse(b.target)
-                else:
-                    raise AlgebraError('reduction body')
-                if not (tgt_ == 'fs_proj' and v.equals(Rat.atom('P') * Rat.atom('c')) and env.get('fs_proj') is not None and env['fs_proj'].equals(Rat.atom('C0'))):
-                    raise AlgebraError('not a product reduction')
-                env['fs_proj'] = Rat.atom('PROD')          # C0 * C1 * ... over all populations
-            elif isinstance(st, ast.Assign) and isinstance(st.targets[0], ast.Name):
-                if dotted(getattr(st.value, 'func', None)) == 'functools.reduce' and ast.unparse(st.value.args[0]) == 'operator.mul' and ast.unparse(st.value.args[1]) == 'pop_contribs':
-                    env[st.targets[0].id] = Rat.atom('PROD')
-                else:
-                    env[st.targets[0].id] = Translator(env).tr(st.value)
-            elif isinstance(st, ast.AugAssign) and isinstance(st.target, ast.Name):
-                v = Translator(env).tr(st.value)
-                if st.target.id == 'fs_total' and isinstance(st.op, ast.Add):
-                    added.append(v)
-                elif isinstance(st.op, ast.Mult) and st.target.id in env:
-                    env[st.target.id] = env[st.target.id] * v
-                else:
-                    raise AlgebraError('statement %s' % tt)
-            elif isinstance(st, ast.Expr) and isinstance(st.value, ast.Constant):
+    summ = count_dict_summary(prog)
+    bad_args, bad_slices, bad_acc, bad_fold = [], [], [], []
+    for (P, polarized), paths in sorted(summ.items()):
+        for pth in paths:
+            tagp = 'P=%d polarized=%s' % (P, polarized)
+            if pth.get('error'):
+                bad_acc.append('%s: %s' % (tagp, pth['error']))
                 continue
-            else:
-                raise AlgebraError('statement %s' % tt[:40])
-        single_pop_ok = 'PROD' in ''.join(sorted(a for v in added for a in v.atoms())) or (len(added) == 1 and added[0].equals(Rat.atom(count) * Rat.atom('C0')))
-        okm = len(added) == 1 and added[0].equals(Rat.atom(count) * Rat.atom('PROD')) and any(ast.unparse(s) == 'pop_contribs = []' for s in lp.body[:lp.body.index(inner[0])])
-        det = 'adds %s per configuration' % (added[0].canon() if added else 'nothing')
-    except (AlgebraError, IndexError, AttributeError) as e:
-        det = 'not recognised: %s' % e
-    rep.ob('R-ALG', '_from_count_dict accumulation', okm, det, m.rel, lp.lineno, what='fs_total += count * prod_i projection_i (outer product)')
+            if pth['folded'] != (not polarized):
+                bad_fold.append('%s: result %s' % (tagp, 'folded' if pth['folded'] else 'not folded'))
+            if pth['skipped']:
+                continue
+            if pth['names'][:2] != [called, derived] or pth['count'] != count:
+                bad_args.append('%s: loop target %s' % (tagp, pth['names']))
+            for i in range(P):
+                f = pth['factors'].get(i)
+                if f is None:
+                    bad_acc.append('%s: no weight for population %d' % (tagp, i))
+                    continue
+                if f['args'] != ['projections[%d]' % i, '%s[%d]' % (called, i), '%s[%d]' % (derived, i)]:
+                    bad_args.append('%s: _cached_projection(%s) for population %d' % (tagp, ', '.join(f['args']), i))
+                if not f['axis_ok']:
+                    bad_slices.append('%s: weights of population %d indexed by %s' % (tagp, i, f['key']))
+            if pth['extra']:
+                bad_acc.append('%s: %s' % (tagp, pth['extra']))
+    okp = not bad_args and cpp[:3] == ['proj_to', 'proj_from', 'hits']
+    rep.ob('R-ARGS', '_from_count_dict projection arguments', okp, '; '.join(bad_args[:3]) if bad_args else '_cached_projection(projections[i], %s[i], %s[i]) for every population i (1..3 populations executed abstractly)' % (called, derived),
+           m.rel, lp.lineno, what='_cached_projection(to = requested size, from = called chromosomes, hits = derived calls) for each population on its own axis')
+    rep.ob('R-IDX', '_from_count_dict broadcast slices', not bad_slices, '; '.join(bad_slices[:3]) if bad_slices else 'weights of population i: full slice on axis i, new axes elsewhere', m.rel, fn.lineno,
+           what='population i varies along axis i of the product')
+    rep.ob('R-ALG', '_from_count_dict accumulation', not bad_acc, '; '.join(bad_acc[:3]) if bad_acc else 'adds count * product over all populations of the weights, once per configuration', m.rel, lp.lineno,
+           what='fs_total += count * prod_i projection_i (outer product)')
     init = [s for s in fn.body if isinstance(s, ast.Assign) and ast.unparse(s.targets[0]) == 'fs_total']
     oki = len(init) == 1 and 'numpy.zeros(numpy.array(projections) + 1)' in ast.unparse(init[0].value)
     rep.ob('R-IDX', '_from_count_dict shape', oki, ast.unparse(init[0].value) if init else '?', m.rel, fn.lineno, what='result has projections+1 entries per axis and starts at zero')
     # fold rule
-    tail = fn.body[-1]
-    okf = isinstance(tail, ast.If) and ast.unparse(tail.test) == 'polarized' and ast.unparse(tail.body[0]) == 'return fs_total' and ast.unparse(tail.orelse[0]) == 'return fs_total.fold()'
-    rep.ob('R-DOM', '_from_count_dict folding', okf, ast.unparse(tail).replace('\n', ' ')[:100], m.rel, tail.lineno, what='unpolarised spectra are folded, polarised ones are not')
+    rep.ob('R-DOM', '_from_count_dict folding', not bad_fold, '; '.join(bad_fold[:3]) if bad_fold else 'returns the accumulated spectrum when polarized, its fold() otherwise', m.rel, fn.lineno,
+           what='unpolarised spectra are folded, polarised ones are not')
     # from_data_dict forwarding
     fd = prog.func(SM, 'Spectrum.from_data_dict')
     t = ast.unparse(fd)
@@ -600,7 +628,7 @@ class VecEval:
             raise AlgebraError('operator')
         if isinstance(e, ast.Subscript):
             b = self.ev(e.value)
-            if not isinstance(b, Vec) and ast.unparse(e.slice) == 'tuple(this_slice)':
+            if not isinstance(b, Vec) and ast.unparse(e.slice).replace('np.', 'numpy.').replace('None', 'numpy.newaxis') in ('tuple(this_slice)', '(..., numpy.newaxis)'):
                 return b           # alignment of a scalar field with the per-population axis
             raise AlgebraError('subscript %s' % ast.unparse(e))
         if isinstance(e, ast.Call):
@@ -773,8 +801,14 @@ def check_statistics(rep, prog, tier):
     fn = prog.func(SM, 'Spectrum.Fst')
     rep.saw_function(m.rel + ':Spectrum.Fst')
     tf = ast.unparse(fn)
-    okc = has(tf, 'counts_per_pop = numpy.indices(self.shape)') and has(tf, 'counts_per_pop = numpy.transpose(counts_per_pop, axes=list(range(1, r + 1)) + [0])') and \
-        has(tf, 'this_slice = [slice(None)] * r + [numpy.newaxis]')
+    # the index grid with the population axis moved to the end (transpose with the explicit permutation, or moveaxis / rollaxis), and
+    # pbar aligned with it by one trailing new axis (explicit slice list, or Ellipsis)
+    ok_grid = (has(tf, 'counts_per_pop = numpy.indices(self.shape)') and has(tf, 'counts_per_pop = numpy.transpose(counts_per_pop, axes=list(range(1, r + 1)) + [0])')) or \
+        has(tf, 'counts_per_pop = numpy.moveaxis(numpy.indices(self.shape), 0, -1)') or \
+        (has(tf, 'counts_per_pop = numpy.indices(self.shape)') and has(tf, 'counts_per_pop = numpy.moveaxis(counts_per_pop, 0, -1)'))
+    ok_align = has(tf, 'this_slice = [slice(None)] * r + [numpy.newaxis]') or any(
+        isinstance(n, ast.Subscript) and ast.unparse(n.value) == 'pbar' and ast.unparse(n.slice).replace('np.', 'numpy.').replace('None', 'numpy.newaxis') in ('(..., numpy.newaxis)',) for n in ast.walk(fn))
+    okc = ok_grid and ok_align
     rep.ob('R-IDX', 'Spectrum.Fst frequencies', okc, 'counts_per_pop[i1..ir] = (i1..ir) on the last axis; pbar aligned by a trailing new axis', m.rel, fn.lineno,
            what='per-population allele counts are the entry indices')
     okw = has(tf, 'asum = numpy.sum(self * a)') and has(tf, 'dsum = numpy.sum(self * d)') and tf.rstrip().endswith('return asum / (asum + dsum)')
